@@ -504,9 +504,25 @@ Proof.
     + inversion Hf; subst o. cbn [olist app filter]. rewrite T. cbn [negb]. f_equal. auto.
 Qed.
 
+End Selection.
+
+(* the selection the command works with (Transform.eff_sel): the patterns' for every command but strip, for which
+   no pattern at all means every entry (4d97c0da) *)
+Lemma eff_sel_strip o nf sel n : eff_sel (CStrip o) nf sel n = (nf =? 0) || sel n.
+Proof. reflexivity. Qed.
+Lemma eff_sel_other c nf sel : (forall o, c <> CStrip o) -> eff_sel c nf sel = sel.
+Proof. destruct c; intros H; try reflexivity. contradiction (H o). reflexivity. Qed.
+Lemma eff_sel_needs_files c nf sel : needs_files c = true -> eff_sel c nf sel = sel.
+Proof. destruct c; intros H; try reflexivity. discriminate H. Qed.
+Lemma touched_strip o nf sel e : touched (eff_sel (CStrip o) nf sel) (CStrip o) e = (nf =? 0) || sel (le_name e).
+Proof. reflexivity. Qed.
+
+Section Run.
+Variable sel : bytes -> bool.          (* GlobPatterns::matches_any on the entry name *)
+
 Lemma run_cmd_cases keep pw c nf a a' : run_cmd keep pw c nf sel a = Ok a' ->
   (needs_files c = true /\ nf = 0 /\ a' = a) \/
-  (needs_files c && (nf =? 0) = false /\ transform keep pw (cmd_transformer c sel) a = Ok a').
+  (needs_files c && (nf =? 0) = false /\ transform keep pw (cmd_transformer c (eff_sel c nf sel)) a = Ok a').
 Proof.
   unfold run_cmd. destruct (needs_files c && (nf =? 0)) eqn:E; intros H.
   - left. apply andb_true_iff in E. destruct E as [E1 E2]. apply N.eqb_eq in E2. inversion H. auto.
@@ -522,34 +538,64 @@ Proof. induction l; intros H; constructor; [apply H; left; reflexivity | apply I
    returned unchanged in every attribute (c other than delete) *)
 Theorem frame_entries keep pw c nf a a' :
   run_cmd keep pw c nf sel a = Ok a' -> c <> CDelete ->
-  Forall2 (fun e e' => le_name e' = le_name e /\ (touched c e = false -> e' = e)) (entries a) (entries a').
+  Forall2 (fun e e' => le_name e' = le_name e /\ (touched (eff_sel c nf sel) c e = false -> e' = e)) (entries a) (entries a').
 Proof.
   intros H NE. destruct (run_cmd_cases _ _ _ _ _ _ H) as [(_ & _ & ->)|(_ & Ht)].
   - apply Forall2_refl_on. auto.
-  - apply transform_entries in Ht. apply (map_entries_nondelete c NE) in Ht.
+  - apply transform_entries in Ht. apply (map_entries_nondelete _ c NE) in Ht.
     eapply Forall2_imp; [|exact Ht]. intros e e' Hs. unfold step_rel in Hs.
-    destruct (touched c e); [split; [eapply cmd_entry_name; eauto|discriminate] | subst; auto].
+    destruct (touched (eff_sel c nf sel) c e); [split; [eapply cmd_entry_name; eauto|discriminate] | subst; auto].
+Qed.
+(* strip with FILES (4d97c0da): an entry the patterns do not select is returned unchanged in every attribute *)
+Corollary frame_strip_patterns keep pw o nf a a' :
+  run_cmd keep pw (CStrip o) nf sel a = Ok a' -> nf <> 0 ->
+  Forall2 (fun e e' => le_name e' = le_name e /\ (sel (le_name e) = false -> e' = e)) (entries a) (entries a').
+Proof.
+  intros H NZ. eapply Forall2_imp; [|exact (frame_entries keep pw (CStrip o) nf a a' H ltac:(discriminate))].
+  cbv beta. intros e e' [Hn Hu]. split; [exact Hn|]. intros S. apply Hu. rewrite touched_strip, S.
+  apply N.eqb_neq in NZ. rewrite NZ. reflexivity.
 Qed.
 (* FRAME, every command: the entries the command does not touch form the same sequence before
    and after (same relative order, every attribute equal) *)
 Theorem frame_untouched keep pw c nf a a' :
   run_cmd keep pw c nf sel a = Ok a' ->
-  filter (fun e => negb (touched c e)) (entries a') = filter (fun e => negb (touched c e)) (entries a).
+  filter (fun e => negb (touched (eff_sel c nf sel) c e)) (entries a')
+  = filter (fun e => negb (touched (eff_sel c nf sel) c e)) (entries a).
 Proof.
   intros H. destruct (run_cmd_cases _ _ _ _ _ _ H) as [(_ & _ & ->)|(_ & Ht)]; [reflexivity|].
   apply transform_entries in Ht. now apply map_entries_frame.
+Qed.
+(* strip with FILES: the entries the patterns do not select are the same sequence before and after *)
+Corollary frame_untouched_strip_patterns keep pw o nf a a' :
+  run_cmd keep pw (CStrip o) nf sel a = Ok a' -> nf <> 0 ->
+  filter (fun e => negb (sel (le_name e))) (entries a') = filter (fun e => negb (sel (le_name e))) (entries a).
+Proof.
+  intros H NZ. pose proof (frame_untouched keep pw (CStrip o) nf a a' H) as F.
+  apply N.eqb_neq in NZ.
+  rewrite !(filter_ext (fun e => negb (touched (eff_sel (CStrip o) nf sel) (CStrip o) e)) (fun e => negb (sel (le_name e)))) in F;
+    [exact F| |]; intros e; rewrite touched_strip, NZ; reflexivity.
 Qed.
 (* EFFECT: a selected entry is replaced by the command's transformer applied to it (whose
    attribute-wise meaning is chmod_attrs, chown_attrs, xattr_*, acl_*, strip_*, migrate_attrs).
    An empty pattern list matches nothing (GlobSet::is_match on an empty set). *)
 Theorem effect_entries keep pw c nf a a' :
   run_cmd keep pw c nf sel a = Ok a' -> c <> CDelete -> (nf = 0 -> forall n, sel n = false) ->
-  Forall2 (step_rel c) (entries a) (entries a').
+  Forall2 (step_rel (eff_sel c nf sel) c) (entries a) (entries a').
 Proof.
   intros H NE Hempty. destruct (run_cmd_cases _ _ _ _ _ _ H) as [(Hn & Hz & ->)|(_ & Ht)].
-  - apply Forall2_refl_on. intros e _. unfold step_rel, touched. rewrite (Hempty Hz).
+  - apply Forall2_refl_on. intros e _. unfold step_rel, touched. rewrite (eff_sel_needs_files c nf sel Hn), (Hempty Hz).
     destruct c; try discriminate; reflexivity.
   - apply transform_entries in Ht. now apply map_entries_nondelete.
+Qed.
+(* strip: without FILES every entry is stripped, with FILES exactly the selected ones *)
+Corollary effect_strip keep pw o nf a a' :
+  run_cmd keep pw (CStrip o) nf sel a = Ok a' ->
+  Forall2 (fun e e' => e' = if (nf =? 0) || sel (le_name e) then cmd_strip o e else e) (entries a) (entries a').
+Proof.
+  intros H. destruct (run_cmd_cases _ _ _ _ _ _ H) as [(Hn & _)|(_ & Ht)]; [discriminate|].
+  apply transform_entries in Ht. apply (map_entries_nondelete _ (CStrip o) ltac:(discriminate)) in Ht.
+  eapply Forall2_imp; [|exact Ht]. cbv beta. intros e e' Hs. unfold step_rel in Hs. rewrite touched_strip in Hs.
+  destruct ((nf =? 0) || sel (le_name e)); [cbn [cmd_entry] in Hs; congruence|exact Hs].
 Qed.
 (* delete: exactly the selected entries disappear; the survivors are unchanged and in order *)
 Theorem delete_exact keep pw nf a a' :
@@ -559,7 +605,7 @@ Proof.
   intros H. destruct (run_cmd_cases _ _ _ _ _ _ H) as [(Hn & _)|(_ & Ht)]; [discriminate|].
   apply transform_entries in Ht. now apply map_entries_delete.
 Qed.
-End Selection.
+End Run.
 
 (* ---- shape: what the two strategies do to the solid structure ------------------------------------------ *)
 Definition solid_blocks (a : archive) : list (shdr * list chunk * list lentry) :=
@@ -796,15 +842,16 @@ Proof.
       * now apply transform_normals_fix.
 Qed.
 
+End Idem.
+
 (* IDEMPOTENCE: repeating the same edit changes nothing further *)
-Theorem idempotent keep pw c nf a a' :
+Theorem idempotent sel keep pw c nf a a' :
   (forall e, In e (entries a) -> entry_idem c e) ->
   run_cmd keep pw c nf sel a = Ok a' -> run_cmd keep pw c nf sel a' = Ok a'.
 Proof.
   intros Hid H. destruct (run_cmd_cases sel keep pw c nf a a' H) as [(Hn & Hz & Ha)|(Hn & Ht)]; [subst a'; exact H|].
-  unfold run_cmd. rewrite Hn. exact (transform_idem keep pw c a a' Hid Ht).
+  unfold run_cmd. rewrite Hn. exact (transform_idem (eff_sel c nf sel) keep pw c a a' Hid Ht).
 Qed.
-End Idem.
 
 (* chmod, chown, xattr set/remove, strip, delete: unconditionally *)
 Definition acl_free (c : cmd) : bool := match c with CAcl _ _ | CMigrate => false | _ => true end.
@@ -897,3 +944,38 @@ Example ex_run_ok :
 Proof. eexists. split; [vm_compute; reflexivity|]. vm_compute. intros H. discriminate H. Qed.
 Example ex_reads_back : acl_reads_back CMigrate wit_entry.
 Proof. cbn [acl_reads_back]. intros m H. vm_compute in H. inversion H. vm_compute. reflexivity. Qed.
+
+(* ---- strip as it was before 4d97c0da: FILES were accepted and ignored (every entry was stripped) ------------ *)
+Definition selects_all_orig (c : cmd) : bool := match c with CStrip _ | CMigrate => true | _ => false end.
+Definition cmd_transformer_orig (c : cmd) (sel : bytes -> bool) : transformer :=
+  fun e => if selects_all_orig c || sel (le_name e) then cmd_entry c e else Ok (Some e).
+Definition run_cmd_orig (keep pw : bool) (c : cmd) (nfiles : N) (sel : bytes -> bool) (a : archive) : res archive :=
+  if needs_files c && N.eqb nfiles 0 then Ok a else transform keep pw (cmd_transformer_orig c sel) a.
+(* for every command but strip the old transformer is the repaired one *)
+Lemma run_cmd_orig_other keep pw c nf sel a : (forall o, c <> CStrip o) -> run_cmd_orig keep pw c nf sel a = run_cmd keep pw c nf sel a.
+Proof. destruct c; intros H; try reflexivity. contradiction (H o). reflexivity. Qed.
+
+Definition strip_all : strip_opts :=
+  {| keep_time := false; keep_perm := false; keep_xattr := false; keep_acl := false; keep_private := None |}.
+Definition strip_sel (n : bytes) : bool := bytes_eqb n (lit "b").
+(* pna strip x.pna b  on the archive [a; solid [b; c]]: the old command strips a and c as well *)
+Lemma strip_ignored_patterns_unrepaired :
+  exists a', run_cmd_orig true false (CStrip strip_all) 1 strip_sel ex_archive = Ok a' /\
+    ~ Forall2 (fun e e' => le_name e' = le_name e /\ (strip_sel (le_name e) = false -> e' = e)) (entries ex_archive) (entries a').
+Proof.
+  eexists. split; [vm_compute; reflexivity|]. intros F. vm_compute in F.
+  inversion F as [|? ? ? ? [_ Hu] _]; subst. specialize (Hu eq_refl). discriminate Hu.
+Qed.
+(* the repaired command on the same input strips b alone *)
+Example strip_patterns_repaired :
+  exists a', run_cmd true false (CStrip strip_all) 1 strip_sel ex_archive = Ok a' /\
+    entries a' = [ex_entry (lit "a"); cmd_strip strip_all (ex_entry (lit "b")); ex_entry (lit "c")] /\
+    cmd_strip strip_all (ex_entry (lit "b")) <> ex_entry (lit "b").
+Proof.
+  eexists. split; [vm_compute; reflexivity|]. split; [vm_compute; reflexivity|]. vm_compute. intros H. discriminate H.
+Qed.
+(* and without FILES every entry, as before *)
+Example strip_no_patterns :
+  exists a', run_cmd true false (CStrip strip_all) 0 (fun _ => false) ex_archive = Ok a' /\
+    entries a' = map (cmd_strip strip_all) (entries ex_archive).
+Proof. eexists. split; [vm_compute; reflexivity|]. vm_compute. reflexivity. Qed.
